@@ -196,6 +196,19 @@ def generate(ctx):
         r['transform'] = 'base'
         for name, q, style in g.variants(p, 3, force=('reorder-inner',)):
             recs.append(rec_from_problem(q, r['family'], 'class', truth=r['truth'], group=gid[0], transform=name, style=style))
+    # a dead disjunct with expanded inner flaws, decisions on their literals, then a backjump to root; the twin is the same
+    # problem without the dead disjunct
+    n_bj = 120 if not ctx.thorough else 2000
+    for i in range(n_bj):
+        p, M, q = g.backjump()
+        r = rec_from_problem(p, 'backjump', 'planted', truth='S', model=M)
+        recs.append(r)
+        gid[0] += 1
+        r['group'] = gid[0]
+        r['transform'] = 'base'
+        recs.append(rec_from_problem(q, 'backjump', 'class', truth='S', model=M, group=gid[0], transform='dead-disjunct-removed'))
+        for name, q2, style in g.variants(p, 2, force=('reorder-inner',) if i % 2 else ('reorder',)):
+            recs.append(rec_from_problem(q2, 'backjump', 'class', truth='S', group=gid[0], transform=name, style=style))
     # goals that can only be achieved by unification with a fact; the role-exchanged twin must get the same verdict
     U = c02_plans.Unify(rng)
     n_un = 150 if not ctx.thorough else 2500
